@@ -53,6 +53,7 @@ type Env struct {
 	ownAssume []*Term
 	ownAuto   func() []*Term
 	frOn      bool
+	unsafeCasts []*Term // refs of byte arrays that were reinterpreted as strings (see aliasObligations)
 	frObjs    []*Term
 	frLeaves  map[string][]*Term
 	frRefs    []*Term
